@@ -307,9 +307,14 @@ def finish(prop, tier, seed, merged, level, rule, assumptions, wall, n_shards, e
         lines.append("VIOLATION property={} replay={}".format(prop, path))
         d = v["disc"]
         lines.append("  what: " + ", ".join("{}={}".format(k, d[k]) for k in sorted(d) if k not in ("detail",))[:600])
-    for fid, cnt in sorted(merged["known"].items()):
+    # one line per finding listed under this property (witnessed in this run or not), plus any
+    # finding listed elsewhere whose mechanism surfaced here
+    listed = [f["id"] for f in findings.listed_under(prop)]
+    for fid in sorted(set(listed) | set(merged["known"])):
         f = findings.get(fid) or {}
-        lines.append("KNOWN-FINDING: property={} {} [{}] witnesses={}".format(prop, f.get("what", fid), fid, cnt))
+        cnt = merged["known"].get(fid, 0)
+        lines.append("KNOWN-FINDING: property={} {} [{}] witnesses={}{}".format(
+            prop, f.get("what", fid), fid, cnt, "" if cnt else " (not reached by this run's workload)"))
 
     coverage = {
         "evaluations": merged["evaluations"],
